@@ -2,10 +2,13 @@
    ConfigFile.EntryForRegistry versus the model (Model/AuthFile.v) and versus the property's
    specification.  A case is one generated config document, one helper-runner table, and for
    every looked-up host every DISTINCT observation made over 20 loads of the document (to vary
-   Go's map iteration order) and several lookup orders. *)
+   Go's map iteration order) and several lookup orders.
+   The helper runner is either injected by the harness (a table of results, [c_path] = None) or
+   the real one (nil HelperRunner: ExecHelperWithEnv runs docker-credential-NAME from PATH); then
+   [c_path] lists the directories the harness put on PATH and what it put into them. *)
 From Coq Require Import String.
-From OCI Require Export Base.Outcome Model.AuthFile.
-From OCI Require Import Proofs.AuthFile.
+From OCI Require Export Base.Outcome Model.AuthFile Model.AuthExec.
+From OCI Require Import Proofs.AuthFile Proofs.AuthExec.
 
 (* one member of "auths" as written to the file.  [e_plain] is the generator's annotation:
    the (user, password) it encoded into [e_auth]; it is believed only after re-encoding. *)
@@ -24,12 +27,18 @@ Inductive lobs :=
   | LO (e : config_entry) (cls : eclass) (calls : list (bytes * bytes))
   | LPanic.
 
+Definition PE := Build_pend.
+
 Record case := {
   c_auths : list centry;
   c_store : bytes;
   c_helpers : list (bytes * bytes);
   c_runner : list (bytes * bytes * (config_entry * herr));   (* (helper, host) -> result *)
   c_rdefault : config_entry * herr;                          (* result for pairs not listed *)
+  c_path : option (list dir_t);          (* Some: the real exec runner, PATH directories in order *)
+  c_calls_seen : bool;                   (* true: every runner call was recorded (the harness wraps
+                                            the runner); false: only the calls that reached a helper
+                                            program which logs its standard input *)
   c_load : load_obs;
   c_lookups : list (bytes * lobs)                            (* host, observation *)
 }.
@@ -91,34 +100,97 @@ Fixpoint runner_find (l : list (bytes * bytes * (config_entry * herr))) (helper 
   | (hp, h, r) :: l' => if beqb hp helper && beqb h host then Some r else runner_find l' helper host
   end.
 
+(* encoding/json on what the harness's helper programs print when they answer with credentials:
+   exactly {"ServerURL":"registry","Username":"U","Secret":"S"} and an optional line feed, U and S
+   printable ASCII without quote and backslash (nothing to unescape).  Oracle: json.Unmarshal
+   delivers U and S for such a text. *)
+Definition json_pre : bytes := s "{""ServerURL"":""registry"",""Username"":""".
+Definition json_mid : bytes := s ",""Secret"":""".
+Definition json_end : bytes := s "}".
+Definition safe_char (b : N) : bool := (32 <=? b) && (b <? 127) && negb (b =? 34) && negb (b =? 92).
+
+Definition creds_json (out : bytes) : option (bytes * bytes) :=
+  if has_prefix json_pre out then
+    match cut_byte 34 (trim_prefix json_pre out) with
+    | Some (u, r1) =>
+        if has_prefix json_mid r1 then
+          match cut_byte 34 (trim_prefix json_mid r1) with
+          | Some (p, r2) =>
+              if (beqb r2 json_end || beqb r2 (json_end ++ [10])) && forallb safe_char u && forallb safe_char p
+              then Some (u, p) else None
+          | None => None
+          end
+        else None
+    | None => None
+    end
+  else None.
+
+(* certainly rejected by json.Unmarshal into a struct: empty, or a text whose first byte after
+   white space starts neither an object nor null *)
+Definition not_json (out : bytes) : bool :=
+  match trim_left_space out with
+  | [] => true
+  | b :: _ => negb (b =? 123) && negb (b =? 110)
+  end.
+
 Definition runner_of (c : case) : runner_t :=
-  fun helper host => match runner_find (c_runner c) helper host with
-                     | Some r => r
-                     | None => c_rdefault c
-                     end.
+  match c_path c with
+  | Some path => exec_helper creds_json (cmd_run path)
+  | None =>
+      fun helper host => match runner_find (c_runner c) helper host with
+                         | Some r => r
+                         | None => c_rdefault c
+                         end
+  end.
 
 Definition calls_eqb (a b : list (bytes * bytes)) : bool := list_eqb pair_eqb a b.
 
+(* recorded calls against the calls that have to be made: equal when all calls are seen, else
+   nothing recorded that should not have been made *)
+Definition calls_ok (seen : bool) (calls expected : list (bytes * bytes)) : bool :=
+  if seen then calls_eqb calls expected
+  else forallb (fun c => existsb (pair_eqb c) expected) calls.
+
+(* what the exec model covers: helper names without a slash (LookPath searches PATH), ASCII
+   output (TrimSpace), and exit-0 output that is either the credentials text or certainly not JSON *)
+Definition ascii (l : bytes) : bool := forallb (fun b => b <? 128) l.
+Definition no_slash (l : bytes) : bool := negb (existsb (N.eqb 47) l).
+Definition pend_ok (e : pend) : bool :=
+  ascii (pe_out e) &&
+  (negb (pe_exit0 e) || match creds_json (pe_out e) with Some _ => true | None => not_json (pe_out e) end).
+Definition pfile_ok (f : pfile) : bool :=
+  match f with
+  | FProg ans dflt => forallb (fun a => pend_ok (snd a)) ans && pend_ok dflt
+  | _ => true
+  end.
+Definition wf_exec (c : case) : bool :=
+  match c_path c with
+  | None => true
+  | Some path =>
+      no_slash (c_store c) && forallb (fun kv => no_slash (snd kv)) (c_helpers c)
+      && forallb (forallb (fun nf => pfile_ok (snd nf))) path
+  end.
+
 (* the document satisfies what the JSON decoder guarantees (unique keys) *)
 Definition wf_case (c : case) : bool :=
-  nodupb (map e_key (c_auths c)) && nodupb (keys (c_helpers c)).
+  nodupb (map e_key (c_auths c)) && nodupb (keys (c_helpers c)) && wf_exec c.
 
 (* The model is run with the schedule "keys in document order, derived keys never produced";
    by C19_order_independent every other schedule Go may choose predicts the same observations. *)
-Definition lookup_agrees (cfg : config_data) (run : runner_t) (hl : bytes * lobs) : bool :=
+Definition lookup_agrees (seen : bool) (cfg : config_data) (run : runner_t) (hl : bytes * lobs) : bool :=
   let '(h, o) := hl in
   match o with
   | LPanic => false
   | LO e cls calls =>
       let r := entry_for_registry cfg run h in
-      ce_eqb e (fst r) && eclass_eqb cls (class_of (snd r)) && calls_eqb calls (runner_calls cfg h)
+      ce_eqb e (fst r) && eclass_eqb cls (class_of (snd r)) && calls_ok seen calls (runner_calls cfg h)
   end.
 
 Definition model_agrees (c : case) : bool :=
   wf_case c &&
   match decode_config_file (keys (auths_of c)) (doc_of c), c_load c with
   | Err _, LoadFailed => true
-  | Ok cfg, LoadOk => forallb (lookup_agrees cfg (runner_of c)) (c_lookups c)
+  | Ok cfg, LoadOk => forallb (lookup_agrees (c_calls_seen c) cfg (runner_of c)) (c_lookups c)
   | _, _ => false
   end.
 
@@ -182,17 +254,51 @@ Fixpoint assoc (k : bytes) (l : list (bytes * bytes)) : option bytes :=
   | (k', v) :: l' => if beqb k' k then Some v else assoc k l'
   end.
 
+(* The helper protocol with the real runner, from the property's list of helper behaviours
+   (credentials, token, not found, missing binary, other error).  The binary is MISSING when no
+   directory of PATH holds an executable regular file docker-credential-NAME; the first such file
+   is the helper.  A helper that cannot be started, exits non-zero with anything but the
+   "credentials not found" message, or exits zero without printing credentials is an OTHER
+   ERROR; the message (white space around it ignored) with a non-zero exit is NOT FOUND = no
+   information and no error; user name <token> makes the secret a refresh token. *)
+Definition executables_named (path : list dir_t) (file : bytes) : list pfile :=
+  filter (fun f => match f with FBroken | FProg _ _ => true | _ => false end)
+    (flat_map (fun d : dir_t => match map_get file d with Some f => [f] | None => [] end) path).
+
+Definition spec_answer (e : pend) : config_entry * herr :=
+  if pe_exit0 e then
+    match creds_json (pe_out e) with
+    | Some (u, p) => if beqb u (s "<token>") then (CE p [] [] [], HNil) else (CE [] [] u p, HNil)
+    | None => (zero_entry, HOther)
+    end
+  else if beqb (trim_space (pe_out e)) (s "credentials not found in native keychain")
+       then (zero_entry, HNil) else (zero_entry, HOther).
+
+Definition spec_helper (path : list dir_t) (helper host : bytes) : config_entry * herr :=
+  match executables_named path (s "docker-credential-" ++ helper) with
+  | [] => (zero_entry, HMissing)
+  | FProg ans dflt :: _ =>
+      spec_answer (match find (fun a => beqb (fst a) host) ans with Some a => snd a | None => dflt end)
+  | _ :: _ => (zero_entry, HOther)
+  end.
+
+Definition spec_runner (c : case) (helper host : bytes) : config_entry * herr :=
+  match c_path c with
+  | Some path => spec_helper path helper host
+  | None => match runner_find (c_runner c) helper host with Some r => r | None => c_rdefault c end
+  end.
+
 (* per-host helper > default store > table; a default store whose binary is missing falls back to
    the table; whatever else a consulted helper answers (including "no credentials") is the answer *)
 Definition spec_lookup (c : case) (h : bytes) : expect * list (bytes * bytes) :=
   match assoc h (c_helpers c) with
   | Some hp =>
       if nonempty hp then
-        let r := runner_of c hp h in (XExact (fst r) (class_of_herr (snd r)), [(hp, h)])
+        let r := spec_runner c hp h in (XExact (fst r) (class_of_herr (snd r)), [(hp, h)])
       else (spec_table c h, [])
   | None =>
       if nonempty (c_store c) then
-        let r := runner_of c (c_store c) h in
+        let r := spec_runner c (c_store c) h in
         match snd r with
         | HMissing => (spec_table c h, [(c_store c, h)])
         | e => (XExact (fst r) (class_of_herr e), [(c_store c, h)])
@@ -213,7 +319,7 @@ Definition lookup_ok (c : case) (hl : bytes * lobs) : bool :=
   | LPanic => false
   | LO e cls calls =>
       let '(x, xcalls) := spec_lookup c h in
-      satisfies x e cls && calls_eqb calls xcalls
+      satisfies x e cls && calls_ok (c_calls_seen c) calls xcalls
   end.
 
 Definition obs_ok (c : case) : bool :=
@@ -250,7 +356,7 @@ Proof. unfold keys, auths_of. rewrite map_map. reflexivity. Qed.
 
 Lemma wf_case_wf c : wf_case c = true -> wf_auths (auths_of c).
 Proof.
-  unfold wf_case. intros H. apply andb_true_iff in H as [H _]. split.
+  unfold wf_case. intros H. apply andb_true_iff in H as [H _]. apply andb_true_iff in H as [H _]. split.
   - rewrite keys_auths_of. now apply nodupb_NoDup.
   - unfold auths_of. apply Forall_forall. intros kv Hin. apply in_map_iff in Hin as (e & <- & _). reflexivity.
 Qed.
@@ -346,6 +452,35 @@ Proof.
     exact (satisfies_auth_result (ac_of e) eq_refl).
 Qed.
 
+(* the protocol as specified is the protocol as modelled *)
+Lemma find_answer_for ans dflt host :
+  (match find (fun a : bytes * pend => beqb (fst a) host) ans with Some a => snd a | None => dflt end)
+  = answer_for ans dflt host.
+Proof.
+  unfold answer_for. induction ans as [|[k e] l IH]; cbn; [reflexivity|].
+  rewrite (beqb_sym host k). destruct (beqb k host); [reflexivity | exact IH].
+Qed.
+
+Lemma spec_answer_eq e : spec_answer e = answer_result creds_json e.
+Proof.
+  unfold spec_answer, answer_result. destruct (pe_exit0 e); [|reflexivity].
+  destruct (creds_json (pe_out e)) as [[u p]|]; reflexivity.
+Qed.
+
+Lemma spec_runner_eq c hp h : spec_runner c hp h = runner_of c hp h.
+Proof.
+  unfold spec_runner, runner_of. destruct (c_path c) as [path|]; [|reflexivity].
+  unfold spec_helper. change (s "docker-credential-") with helper_prefix.
+  change (executables_named path (helper_prefix ++ hp)) with (programs_named path (helper_prefix ++ hp)).
+  pose proof (look_path_first path (helper_prefix ++ hp)) as L.
+  destruct (programs_named path (helper_prefix ++ hp)) as [|f l] eqn:E; cbn [hd_error] in L.
+  - symmetry. now apply exec_no_program.
+  - pose proof (look_path_program _ _ _ L) as P.
+    destruct f; try discriminate P.
+    + symmetry. now apply exec_unstartable.
+    + rewrite find_answer_for, spec_answer_eq. symmetry. now apply exec_program.
+Qed.
+
 Section Sound.
   Variable c : case.
   Hypothesis Hnk : known_case c = false.
@@ -392,11 +527,11 @@ Section Sound.
     rewrite assoc_map_get.
     destruct (map_get h (c_helpers c)) as [hp|].
     - destruct (nonempty hp).
-      + destruct (runner_of c hp h) as [e err]. rewrite orb_true_r. cbn [orb fst snd satisfies].
+      + rewrite !spec_runner_eq. destruct (runner_of c hp h) as [e err]. rewrite orb_true_r. cbn [orb fst snd satisfies].
         split; [|reflexivity]. apply andb_true_iff. split; [now apply ce_eqb_eq | now apply eclass_eqb_eq].
       + cbn [fst snd]. split; [apply table_sound | reflexivity].
     - destruct (nonempty (c_store c)).
-      + destruct (runner_of c (c_store c) h) as [e err]. cbn [fst snd].
+      + rewrite !spec_runner_eq. destruct (runner_of c (c_store c) h) as [e err]. cbn [fst snd].
         destruct err; cbn [herr_eqb orb negb fst snd satisfies].
         * split; [|reflexivity]. apply andb_true_iff. split; [now apply ce_eqb_eq | reflexivity].
         * split; [apply table_sound | reflexivity].
@@ -422,14 +557,15 @@ Proof.
     rewrite forallb_forall in H. apply forallb_forall. intros [h o] Hin. specialize (H _ Hin).
     unfold lookup_agrees in H. unfold lookup_ok. destruct o as [e cls calls|]; [|discriminate].
     apply andb_true_iff in H as [H H3]. apply andb_true_iff in H as [H1 H2].
-    apply ce_eqb_eq in H1. apply eclass_eqb_eq in H2. apply calls_eqb_eq in H3.
+    apply ce_eqb_eq in H1. apply eclass_eqb_eq in H2.
     destruct (lookup_ref _ _ _ (runner_of c) Hwf Hv Ed h) as [A B].
     assert (Hdec : forall k a, map_get k (auths_of c) = Some a -> exists a', decoded a = Some a').
     { intros k a Hk. eapply (loaded_all_decoded _ _ _ Hwf Hv Ed); eauto. }
     destruct (lookup_sound c Hnk Hwf Hdec h) as [S1 S2]. cbv zeta in S1.
     destruct (spec_lookup c h) as [x xcalls]. cbn [fst snd] in S1, S2.
     rewrite <- A in S1. unfold observe in S1. cbn [fst snd] in S1.
-    subst e cls calls. rewrite S1. cbn [andb]. apply calls_eqb_eq. congruence.
+    subst e cls. rewrite S1. cbn [andb]. rewrite S2.
+    destruct (lookup_ref _ _ _ (runner_of c) Hwf Hv Ed h) as [_ B']. now rewrite <- B'.
   - (* loading failed *)
     destruct Hf as [Hf _]. destruct (Hf (ex_intro _ e Ed)) as (k & a & Hk & Hd).
     apply map_get_In in Hk. unfold doc_of, auths_of in Hk. cbn [cd_auths] in Hk.
